@@ -79,7 +79,10 @@ CHECKS.update({
         'auto-recognised class models; the real load function must then '
         'reproduce accept/reject, RecognitionError and the exact value '
         '(constructor kwargs, defaults, ordered extras, mapping order) on '
-        'every one of those behaviours.', '5/C02'),
+        'every one of those behaviours.  Code->spec: every load the '
+        'repository\'s own test suite performs over a hook-free class model '
+        '(688) is recorded with the class model extracted from the live '
+        'Loader class and validated by TLC (Trace_Load.tla).', '5/C02'),
     'C03': load_check(
         'The reference chooses classes from SETS (most derived matching '
         'registered concrete classes, or the class named by a tag), so '
@@ -100,7 +103,9 @@ CHECKS.update({
         'the bound incl. duplicate keys, non-string keys, explicit tags on '
         'every node, invalid scalars for explicit core tags, aliases and '
         'cycles, raising hooks/constructors; every behaviour executed and the '
-        'type of the escaping exception checked; plus text-level fuzzing.',
+        'type of the escaping exception checked; plus random behaviours '
+        'beyond the bound (TLC simulation) and a text-level fuzz layer (token '
+        'soup, mutated renderings, arbitrary unicode).',
         '5/C08'),
     'C10': load_check(
         'The hook/constructor history variable of the pipeline model '
@@ -181,7 +186,10 @@ CHECKS.update({
              'fingerprints of all PyYAML loader/dumper/resolver tables, '
              'yaml.safe_load/safe_dump probe outputs and vars() of the user '
              'classes and compares them with the specification state; call '
-             'results are compared with the same call in a fresh interpreter.',
+             'results are compared with the same call in a fresh interpreter. '
+             'LoadThreads.tla enumerates all interleavings of concurrent '
+             'loads over the shared Constructor cell (CallsIsolated); the racy '
+             'schedule TLC finds is forced on the real code with events.',
         note='Trusted: the fresh-interpreter result as the meaning of a call; '
              'thread interleavings are CPython\'s (stress with a 1 microsecond '
              'switch interval), not enumerated by TLC.'),
